@@ -5,6 +5,7 @@
    other input misses the table (value 0 / false), which shows as a mismatch. *)
 From Coq Require Import List ZArith NArith Bool.
 Require Import Mixin.Base.Res Mixin.Model.Auth.
+Require Export Mixin.Model.HexLit.
 Import ListNotations.
 Open Scope Z_scope.
 
